@@ -3,7 +3,7 @@
 
 exit 0  every rule instance discharged (known findings are printed, not failed)
 exit 1  VIOLATION line(s) printed
-exit 2  analysis broken (anchor vanished / instance count below the frozen minimum / unit does not parse)
+exit 2  analysis broken and no violation established (anchor vanished / instance count below the frozen minimum / unit does not parse)
 """
 import argparse
 import importlib
